@@ -155,7 +155,10 @@ class Registry:
         if len(self.callee_log) > 200000:
             del self.callee_log[:100000]
         if pol == "model":
-            return self.models[qn](ex, args, kwargs)
+            r = self.models[qn](ex, args, kwargs)
+            if r is not NotImplemented:
+                return r
+            pol = "contract" if (qn in self.contracts or qn in self.families) else "body"
         if pol == "contract":
             c = self.contract_for(ex, qn, args, kwargs)
             if c is not None:
